@@ -158,15 +158,22 @@ def check_bp_map(case):
         f = check_map(res, Q, spec, post, fn, desc)
         if f and f["key"].endswith("not-a-maximiser"):
             # classification only: with integer state names in non-default order (e.g. [2, 1, 0]) the loss of state names
-            # inside the clique tree shows up as a wrong (but well-formed) label instead of an invalid one
-            try:
-                names = BeliefPropagation(model).query(list(Q), evidence=dict(ev) or None, show_progress=False,
-                                                       virtual_evidence=M.make_virtual(spec, vlist) if vlist else None).state_names
-                if any(not M._names_equal(list(names[v]), list(spec["states"][v])) for v in Q):
-                    f["key"] = fn + ":state-name:relabelled"
-                    f["what"] += f" [BeliefPropagation.query labels the same answer with {names} instead of the model's state names]"
-            except Exception:
-                pass
+            # inside the clique tree is not visible as an invalid label; it silently selects the wrong evidence / result state.
+            # The clique tree built for this model (same process, same hash seed) shows whether labels were replaced.
+            lost = []
+            if vlist:
+                eng = BeliefPropagation(model)
+                eng._virtual_evidence(M.make_virtual(spec, vlist))
+                jt = BeliefPropagation(eng.model).junction_tree
+            else:
+                jt = BeliefPropagation(model).junction_tree
+            for phi in jt.get_factors():
+                for v in phi.variables:
+                    if v in spec["states"] and not M._names_equal(list(phi.state_names[v]), list(spec["states"][v])):
+                        lost.append((tuple(phi.variables), v, list(phi.state_names[v])))
+            if lost:
+                f["key"] = fn + ":state-name:relabelled"
+                f["what"] += f" [clique potentials carry default labels instead of the model's state names: {lost[:3]}]"
         return f
 
     for Q, E in M.qe_pairs(nodes, level, rng, max_pairs=40):
